@@ -117,6 +117,17 @@ ProtoAgrees ==
     IF st.ver = NoVer THEN st.proto = "1.4"
     ELSE TRUE  \* for reported versions agreement is by construction of LearnVersion (Select)
 
+(* C05: Select picks the newest supported protocol that is not newer than the report *)
+PV(p) == CASE p = "1.4" -> <<1, 4>> [] p = "1.5" -> <<1, 5>> [] p = "2.0" -> <<2, 0>> [] p = "2.1" -> <<2, 1>> [] p = "2.2" -> <<2, 2>>
+Leq(a, b) == a[1] < b[1] \/ (a[1] = b[1] /\ a[2] <= b[2])
+SelectIsNewestNotNewer ==
+    (hist = <<hist[1]>>) =>     \* a law of the Select function: evaluated in the initial states only
+    \A M \in 0..4, m \in 0..6 :
+        LET p == Select(M, m) IN
+        /\ (Leq(<<1, 5>>, <<M, m>>) => Leq(PV(p), <<M, m>>))          \* anything older than 1.5 selects 1.4
+        /\ (~Leq(<<1, 5>>, <<M, m>>) => p = "1.4")
+        /\ \A q \in Protocols : Leq(PV(q), <<M, m>>) => Leq(PV(q), PV(p))
+
 (* C03: every outcome is a yield, a plain return, or a library error *)
 OutcomeIsLibrary == obs.out.k \in {"yield", "ok"} \/ (obs.out.k = "err" /\ obs.out.cls \subseteq LibClasses /\ obs.out.cls # {})
 
@@ -199,7 +210,10 @@ PresRequestRule ==
               /\ ev_.n \notin st.asked) => obs'.pres # <<>>
           /\ obs'.presOk => ev_.n \in st'.asked
           /\ (obs'.pres # <<>> /\ ~obs'.presOk) => ev_.n \notin st'.asked
+          /\ (obs'.pres # <<>> /\ ev_.fault = "pres") => ev_.n \notin st'.asked   \* a failed request does not count
           /\ \A n \in st.asked \ st'.asked : n = ev_.n /\ ev_.cmd = C_PRESENTATION /\ ev_.c = SysChild ]_vars
+PresentationRearms ==
+    [][ (IsRecv /\ ev_.cmd = C_PRESENTATION /\ ev_.c = SysChild /\ Is2x(st.proto)) => ev_.n \notin st'.asked ]_vars
 NoRequestBefore20 == [][ ~Is2x(st.proto) => (obs'.pres = <<>> /\ st'.asked \subseteq st.asked) ]_vars
 
 (* C11 *)
